@@ -257,8 +257,19 @@ class ExcelCompiler:
         with open(filename, 'r') as f:
             data = YAML().load(f)
 
+        def to_python(value):
+            """yaml loader types (float subclass, ...) do not save unchanged"""
+            if isinstance(value, dict):
+                return {k: to_python(v) for k, v in value.items()}
+            elif isinstance(value, list):
+                return [to_python(v) for v in value]
+            elif isinstance(value, float):
+                return float(value)
+            return value
+
         excel = _CompiledImporter(filename, data)
-        excel_compiler = cls(excel=excel, cycles=data.pop('cycles', False))
+        excel_compiler = cls(
+            excel=excel, cycles=to_python(data.pop('cycles', False)))
         excel.compiler = excel_compiler
 
         def add_line_numbers(cell_addr, line_number):
@@ -289,7 +300,7 @@ class ExcelCompiler:
         # process the rest of the data from the file
         excel_compiler._excel_file_md5_digest = data['excel_hash']
         del data['excel_hash']
-        excel_compiler.extra_data = data
+        excel_compiler.extra_data = to_python(data)
 
         # remove "excel" file references for GC
         excel_compiler.excel = None
